@@ -65,14 +65,29 @@ def key_canonicity(rep: Report, prog: Program) -> None:
     # Dimension / Prefix keys
     for cls, want in (("Dimension", {"exponents"}), ("Prefix", {"base", "exponent"})):
         new = prog.func(f"{cls}.__new__")
-        key_assign = [n for n in ast.walk(new.node) if isinstance(n, ast.Assign) and len(n.targets) == 1
-                      and isinstance(n.targets[0], ast.Name) and n.targets[0].id == "key"]
-        if not key_assign:
-            raise AnalysisError(f"{cls}.__new__: no `key = ...` assignment (anchor moved)")
-        deps = names_in(key_assign[0].value)
-        rep.check("R02.1", f"{cls}.__new__:key", deps == want,
-                  f"intern key of {cls} is built from {sorted(deps)}, expected exactly {sorted(want)}",
-                  new.where(key_assign[0]))
+        # the expression used as intern key: subscript / membership operand / setdefault argument on cls._known
+        key_exprs: List[ast.AST] = []
+        for n in ast.walk(new.node):
+            if isinstance(n, ast.Subscript) and ast.unparse(n.value).endswith("._known"):
+                key_exprs.append(n.slice)
+            elif isinstance(n, ast.Compare) and len(n.ops) == 1 and isinstance(n.ops[0], (ast.In, ast.NotIn)) \
+                    and ast.unparse(n.comparators[0]).endswith("._known"):
+                key_exprs.append(n.left)
+            elif isinstance(n, ast.Call) and isinstance(n.func, ast.Attribute) and n.func.attr in ("setdefault", "get") \
+                    and ast.unparse(n.func.value).endswith("._known") and n.args:
+                key_exprs.append(n.args[0])
+        if not key_exprs:
+            raise AnalysisError(f"{cls}.__new__: no use of cls._known found (anchor moved)")
+        local = {n.targets[0].id: n.value for n in ast.walk(new.node) if isinstance(n, ast.Assign) and len(n.targets) == 1
+                 and isinstance(n.targets[0], ast.Name)}
+        for ke in key_exprs:
+            deps = names_in(ke)
+            for _ in range(3):
+                for v in list(deps):
+                    if v in local:
+                        deps = (deps - {v}) | names_in(local[v])
+            rep.check("R02.1", f"{cls}.__new__:key", deps == want,
+                      f"intern key of {cls} is built from {sorted(deps)}, expected exactly {sorted(want)}", new.where(ke))
     # Prefix identity canonicalisation precedes the key
     pn = prog.func("Prefix.__new__")
     first_if = next((s for s in pn.node.body if isinstance(s, ast.If)), None)
